@@ -100,7 +100,7 @@ def cases(tier: str, seed: int) -> List[Dict[str, Any]]:
                 for d0 in range(1, 1025, 64):
                     out.append({"kind": "D", "rule": rule, "tag": tag, "d0": d0, "d1": d0 + 64})
     entry = ["raw_adam", "raw_sgd_out", "Adam", "AdamW", "SGD_none", "SGD_out"]
-    forms = ["list", "generator", "group_nolr", "group_ownlr", "two_groups", "group_tensor_ownlr"]
+    forms = ["list", "generator", "group_nolr", "group_ownlr", "two_groups", "group_tensor_ownlr", "group_generator"]
     kinds = ["float", "t32", "t64"]
     for e, f, k, lr, allow in itertools.product(entry, forms, kinds, LRS, [False, True]):
         out.append({"kind": "B", "entry": e, "form": f, "lrkind": k, "lr": lr, "allow": allow})
@@ -315,6 +315,8 @@ def run_case(case: Dict[str, Any]) -> Dict[str, Any]:
         params, src = (p for p in ps), [lr] * len(ps)
     elif form == "group_nolr":
         params, src = [{"params": list(ps)}], [lr] * len(ps)
+    elif form == "group_generator":
+        params, src = [{"params": (p for p in ps)}], [lr] * len(ps)  # e.g. {"params": module.parameters()}
     elif form == "group_ownlr":
         params, src = [{"params": list(ps), "lr": own}], [own] * len(ps)
     elif form == "group_tensor_ownlr":
